@@ -74,6 +74,9 @@ func (p *Provider) Run(ctx context.Context, deps core.ProviderDeps) (err error) 
 
 	for _, mw := range p.Middlewares {
 		if err := mw.InitMiddleware(ctx, deps.Log); err != nil {
+			if isCancellation(ctx, err) {
+				return ctx.Err()
+			}
 			return fmt.Errorf("cant InitMiddleware %T, err: %w", mw, err)
 		}
 	}
@@ -131,9 +134,19 @@ func (p *Provider) runFullScan(ctx context.Context) error {
 	}
 }
 
+// isCancellation reports that err is the cancellation of ctx: it is returned as is, like runFullScan and
+// runPreloaded do, because it is not a failure of provider.
+func isCancellation(ctx context.Context, err error) bool {
+	ctxErr := ctx.Err()
+	return ctxErr != nil && errors.Is(ctxErr, context.Canceled) && errors.Is(err, ctxErr)
+}
+
 func (p *Provider) loadAmmo(ctx context.Context) error {
 	ammos, err := p.Decoder.LoadAmmo(ctx)
 	if err != nil {
+		if isCancellation(ctx, err) {
+			return ctx.Err()
+		}
 		return fmt.Errorf("cant LoadAmmo, err: %w", err)
 	}
 	p.ammos = make([]decoders.DecodedAmmo, 0, len(ammos))
